@@ -89,8 +89,10 @@ func execStep(context *exprContext, expr *grammar.Grammar) error {
 	}
 
 	switch nextBsr.Label.Slot().NT {
+	case symbols.NT_NodeTestAndPredicate,
+		symbols.NT_StepWithAxisAndNodeTestAndPredicate:
+		return execStepWithPredicates(context, expr, nextBsr)
 	case symbols.NT_NodeTest,
-		symbols.NT_NodeTestAndPredicate,
 		symbols.NT_NodeTestNodeTypeNoArgTest,
 		symbols.NT_NodeTestProcInstTargetTest,
 		symbols.NT_NameTestAnyElement,
@@ -117,6 +119,48 @@ func execStep(context *exprContext, expr *grammar.Grammar) error {
 	return execContext(context, expr.Next(nextBsr))
 }
 
+// The predicates of a step are evaluated separately for each context node, so
+// that position() and last() refer to the nodes selected from that node along
+// the axis.
+func execStepWithPredicates(context *exprContext, expr *grammar.Grammar, step *bsr.BSR) error {
+	nodeSet, ok := context.result.(NodeSet)
+
+	if !ok {
+		return errQueryNonNodeset
+	}
+
+	result := make(NodeSet, 0)
+
+	for _, i := range nodeSet {
+		nextContext := context.copy()
+		nextContext.result = NodeSet{i}
+
+		if step.Label.Slot().NT == symbols.NT_NodeTestAndPredicate {
+			nextContext.result = selectChild(NodeSet{i})
+			nextContext.principal = principalElement
+		}
+
+		if err := execContext(&nextContext, expr.Next(step)); err != nil {
+			return err
+		}
+
+		next, ok := nextContext.result.(NodeSet)
+
+		if !ok {
+			return errQueryNonNodeset
+		}
+
+		result = append(result, next...)
+	}
+
+	if len(nodeSet) > 1 {
+		result = unionCleanup(result)
+	}
+
+	context.result = result
+	return nil
+}
+
 func execPredicate(context *exprContext, expr *grammar.Grammar) error {
 	nodeSet, ok := context.result.(NodeSet)
 
@@ -130,6 +174,7 @@ func execPredicate(context *exprContext, expr *grammar.Grammar) error {
 		nextContext := context.copy()
 		nextContext.result = NodeSet{nodeSet[i]}
 		nextContext.contextPosition = i
+		nextContext.contextSize = len(nodeSet)
 		left, err := leftOnlyIndependentResult(&nextContext, expr)
 
 		if err != nil {
@@ -137,7 +182,7 @@ func execPredicate(context *exprContext, expr *grammar.Grammar) error {
 		}
 
 		if n, ok := left.(Number); ok {
-			if (i + 1) == int(n) {
+			if float64(i+1) == float64(n) {
 				nextResult = append(nextResult, nodeSet[i])
 			}
 		} else if b, ok := left.(Bool); ok {
